@@ -1,6 +1,7 @@
 import MxModel.Props.C01
 import MxModel.Props.C06
 import MxModel.Proofs.ExecCertRunOps
+import MxModel.Proofs.ExecCertRecalcOp
 import MxModel.Proofs.ExecInputsRun
 import MxModel.Proofs.ExecResolveSM
 import MxModel.Proofs.ExecCertExamples
@@ -30,7 +31,11 @@ or flag edit (`St.setFormula`), `clear_with_descs` for a value edit (`St.setValu
 `no_stale_after_value_edit` conclude `Good env' …` for the edited environment with **no**
 hypothesis about the survivors, from the certificate invariant `CI`, which every reachable
 state has (`reachable_ci`: evaluations – successful or failed –, value edits, reference edits,
-formula and flag edits, cells deleted and created, in any interleaving).  Structural edits:
+formula and flag edits, cells deleted and created, in any interleaving; with the recalculation option
+`mx.set_recalc(True)` – the fourteenth operation, the assignment that recomputes the former leaf
+dependents at once –: `recalc_keeps_certificates`, `reachable_ci_with_recalc`, and
+`recalc_history_is_a_lazy_history`, by which every statement about the reachable states of the
+thirteen-operation language holds with the option on).  Structural edits:
 `no_stale_after_batch_edit` (a SET of cells is redefined at once – formulas, flags, existence –
 and the clearing is the namespace notification, which keeps inputs), with its instances
 `no_stale_after_cell_delete` (`St.delCell`) and `no_stale_after_cell_create` (`St.newCell`); a call
@@ -356,7 +361,9 @@ example : resolve (fun x => if x = "f" then some (.cell 7) else if x = "g" then 
 interleaving of evaluations (successful, failed), value edits, reference edits (change, create,
 delete), formula / flag edits, deletions / creations of cells, changes of the recursion limit and
 administrative calls (thirteen operations: the union of this property's and C05/C08/C17's edit
-languages), starting from the empty model. -/
+languages), starting from the empty model.  The fourteenth operation – the value assignment with the
+recalculation option on – is added by `reachable_ci_with_recalc` / `recalc_history_is_a_lazy_history`
+below. -/
 theorem reachable_ci (lt : Node → Node → Prop) (ho : StrictOrder lt) (env0 : Env) (hw0 : WF env0 lt)
     (ops : List Op) (hadm : Admissible lt (env0, {}) ops) :
     CI (run (env0, {}) ops).1 lt (run (env0, {}) ops).2 ∧ WF (run (env0, {}) ops).1 lt :=
@@ -509,6 +516,174 @@ example : ((run (xEnv, {}) (yOps.take 3)).2.data.map (·.1)) =
       .formulaError errDead [(3, []), (2, [.int 1]), (1, [.int 1])] ∧
     (evalTop (run (xEnv, {}) (yOps.take 6)).1 (3, []) (run (xEnv, {}) (yOps.take 6)).2).1 = .ok (.int 16) := by
   decide
+
+/-! ### the fourteenth operation: the assignment with the recalculation option on
+
+`mx.set_recalc(True)`: `cells[key] = v` recomputes the former leaf dependents at once (`St.setValueRecalc`,
+`Exec/Mech.lean`; the statements about it alone are in `Props/C06.lean`).  The fourteen-operation language
+`OpR` = `Op` + `setValueRecalc` (`Proofs/ExecCertRecalcOp.lean`) is an EXTENSION of the thirteen-operation
+language with a SIMULATION: `stepR` / `runR` / `AdmissibleR` read it operationally; `expand` rewrites a
+history with recalculating assignments into a history without. -/
+
+/-- **The fourteenth operation keeps the certificate invariant** – whatever its outcome
+`(s.setValueRecalc env n v).2`: `.ok` (every recomputation returned), `.failed t e tb` (the recomputation
+of the former leaf dependent `t` raised out of the assignment; the assignment is made, the targets before
+`t` are recomputed), `.refused e` (`None` where it is not allowed: nothing changed).  Second conjunct: as an
+operation of the language (`stepR`: an assignment through the handle of a missing cells, or to an
+uncached one, changes nothing). -/
+theorem recalc_keeps_certificates (lt : Node → Node → Prop) (ho : StrictOrder lt) (env : Env) (hw : WF env lt)
+    (s : St) (h : CI env lt s) (n : Node) (v : Val) :
+    (env.cached n.1 = true → env.alive n.1 = true → CI env lt (s.setValueRecalc env n v).1) ∧
+    CI (stepR (env, s) (.setValueRecalc n v)).1 lt (stepR (env, s) (.setValueRecalc n v)).2 :=
+  ⟨fun hc hn => setValueRecalc_ci ho hw h n v hc hn, stepR_ci lt ho (env, s) (.setValueRecalc n v) hw h⟩
+
+/-- **Every reachable quiescent state has the certificate invariant, the recalculation option included**:
+after any finite interleaving of the thirteen operations of `reachable_ci` and of recalculating
+assignments (returned, failed, refused), starting from the empty model. -/
+theorem reachable_ci_with_recalc (lt : Node → Node → Prop) (ho : StrictOrder lt) (env0 : Env) (hw0 : WF env0 lt)
+    (ops : List OpR) (hadm : AdmissibleR lt (env0, {}) ops) :
+    CI (runR (env0, {}) ops).1 lt (runR (env0, {}) ops).2 ∧ WF (runR (env0, {}) ops).1 lt :=
+  runR_ci lt ho ops (env0, {}) hw0 (CI.empty env0 lt) hadm
+
+/-- … hence C02 for the value layer with the option on: in every state reachable with recalculating
+assignments every held value is the denotation under the CURRENT definitions and inputs. -/
+theorem no_stale_value_reachable_with_recalc (lt : Node → Node → Prop) (ho : StrictOrder lt) (env0 : Env)
+    (hw0 : WF env0 lt) (ops : List OpR) (hadm : AdmissibleR lt (env0, {}) ops) :
+    Good (runR (env0, {}) ops).1 (inpOf (runR (env0, {}) ops).2) (runR (env0, {}) ops).2 :=
+  (reachable_ci_with_recalc lt ho env0 hw0 ops hadm).1.good
+
+/-- **A history with recalculating assignments is a lazy history.**  Every pair (definitions, mechanism
+state) reachable from the empty model by an admissible history of the fourteen-operation language is THE
+pair – same definitions, same held values, inputs, graphs, log – reached by the history `expand … ops` of the
+thirteen-operation language, which is admissible too.  `expand` (shape: `lazy_history_shape`) keeps every
+operation of `Op` and replaces each recalculating assignment by the lazy assignment followed by the
+evaluations of the former leaf dependents (those up to and including the first that fails).  Hence every
+theorem about `run (env0, {}) ops'` for admissible `ops'` – `reachable_ci`, `no_stale_value_reachable`,
+`live_answer_equals_edits_only_answer`, the statements of C01/C05/C06/C08/C09 about reachable states – holds
+of every state reachable with the option on. -/
+theorem recalc_history_is_a_lazy_history (lt : Node → Node → Prop) (ho : StrictOrder lt) (env0 : Env)
+    (hw0 : WF env0 lt) (ops : List OpR) (hadm : AdmissibleR lt (env0, {}) ops) :
+    runR (env0, {}) ops = run (env0, {}) (expand (env0, {}) ops) ∧
+    Admissible lt (env0, {}) (expand (env0, {}) ops) :=
+  runR_eq_run lt ho ops (env0, {}) hw0 (CI.empty env0 lt) hadm
+
+/-- … as ONE statement: whatever holds of every pair (definitions, mechanism state) reachable by an
+admissible history of the thirteen-operation language holds of every pair reachable by an admissible
+history of the fourteen-operation language. -/
+theorem every_lazy_theorem_holds_with_recalc (lt : Node → Node → Prop) (ho : StrictOrder lt) (env0 : Env)
+    (hw0 : WF env0 lt) (P : Env × St → Prop)
+    (hP : ∀ ops : List Op, Admissible lt (env0, {}) ops → P (run (env0, {}) ops))
+    (ops : List OpR) (hadm : AdmissibleR lt (env0, {}) ops) : P (runR (env0, {}) ops) := by
+  obtain ⟨e, a⟩ := recalc_history_is_a_lazy_history lt ho env0 hw0 ops hadm
+  rw [e]; exact hP _ a
+
+/-- **the shape of the lazy history**: nothing for the empty history; an operation of the thirteen is
+kept; a recalculating assignment `n := v` becomes the lazy assignment `n := v` followed by evaluations of
+former leaf dependents of `n` (`ts`: elements of `St.startNodesFrom` of the state BEFORE the assignment,
+each at most as often as there – `ts` is a sublist; exactly which: `C06.recalc_state_is_lazy_run`) -/
+theorem lazy_history_shape :
+    (∀ st, expand st [] = []) ∧
+    (∀ st op ops, expand st (.base op :: ops) = op :: expand (step st op) ops) ∧
+    (∀ (env : Env) (s : St) (n : Node) (v : Val) (ops : List OpR), ∃ ts : List Node,
+      (∀ t ∈ ts, t ∈ s.startNodesFrom n) ∧
+      expand (env, s) (.setValueRecalc n v :: ops) =
+        .setValue n v :: ts.map Op.eval ++ expand (stepR (env, s) (.setValueRecalc n v)) ops) := by
+  refine ⟨fun _ => rfl, fun _ _ _ => rfl, ?_⟩
+  intro env s n v ops
+  by_cases hg : (env.cached n.1 && env.alive n.1) = true
+  · cases hs : (s.setValue env n v).2 with
+    | some e =>
+      refine ⟨[], fun _ ht => absurd ht List.not_mem_nil, ?_⟩
+      simp only [expand, expandOp, hg, if_true, hs, List.map_nil, List.cons_append, List.nil_append]
+    | none =>
+      refine ⟨evaluatedTargets env (s.startNodesFrom n) (s.setValue env n v).1,
+        evaluatedTargets_sub env _ _, ?_⟩
+      simp only [expand, expandOp, hg, if_true, hs, List.cons_append]
+  · refine ⟨[], fun _ ht => absurd ht List.not_mem_nil, ?_⟩
+    simp only [expand, expandOp, hg, Bool.false_eq_true, if_false, List.map_nil, List.cons_append,
+      List.nil_append]
+
+/-- **The headline with the option on**: whatever was evaluated or recomputed in between, the value a
+later evaluation returns equals the value returned by a model to which only the edits were applied – with
+the option OFF: `noEvals (expand … ops)` keeps of every recalculating assignment the lazy assignment only.
+(`live_answer_equals_edits_only_answer` carried over by `recalc_history_is_a_lazy_history`.) -/
+theorem live_answer_equals_edits_only_answer_with_recalc (lt : Node → Node → Prop) (ho : StrictOrder lt)
+    (env0 : Env) (hw0 : WF env0 lt) (ops : List OpR) (hadm : AdmissibleR lt (env0, {}) ops) (n : Node) (v w : Val)
+    (hv : (evalTop (runR (env0, {}) ops).1 n (runR (env0, {}) ops).2).1 = .ok v)
+    (hw : (evalTop (run (env0, {}) (noEvals (expand (env0, {}) ops))).1 n
+            (run (env0, {}) (noEvals (expand (env0, {}) ops))).2).1 = .ok w) :
+    v = w := by
+  obtain ⟨e, a⟩ := recalc_history_is_a_lazy_history lt ho env0 hw0 ops hadm
+  rw [e] at hv
+  exact live_answer_equals_edits_only_answer lt ho env0 hw0 _ a n v w hv hw
+
+/-! Non-vacuity, on the program of C06 (`C06.kEnv`: `c0 = 1`, `c1 = c0() * 10`,
+`c2 = c1() + 1 if c0() < 5 else 0`, `c3 = c1() + 100`, `c4 = 7`, `c5 = 1 if c0() < 5 else raise`).  The history
+`kOpsR`: `c2()`, `c3()`, `c4()` evaluated; `c0 = 2` with the option on (returns: `c2()`, `c3()` recomputed); `c5()`
+evaluated; `c0 = 9` with the option on (targets `c2()`, `c5()`, `c3()`: `c2()` is recomputed to 0, `c5()` FAILS,
+`c3()` is not evaluated); `c0 = None` with the option on (REFUSED).  It is admissible; the invariant holds at
+its end; its lazy history is the eleven operations below and reaches the same state (compared as whole
+states); the values are those of the definitions in force. -/
+def kOpsR : List OpR :=
+  [.base (.eval (2, [])), .base (.eval (3, [])), .base (.eval (4, [])), .setValueRecalc (0, []) (.int 2),
+   .base (.eval (5, [])), .setValueRecalc (0, []) (.int 9), .setValueRecalc (0, []) .none]
+
+theorem kOpsR_admissible : AdmissibleR idLt (C06.kEnv, {}) kOpsR :=
+  admissibleR_valueOnly kOpsR _ C06.kEnv_wf rfl
+
+example : CI C06.kEnv idLt (C06.kS.setValueRecalc C06.kEnv (0, []) (.int 2)).1 :=
+  (recalc_keeps_certificates idLt idLt_strict C06.kEnv C06.kEnv_wf C06.kS C06.kS_ci (0, []) (.int 2)).1 rfl rfl
+
+-- a failing recomputation (`kU`: `c5()` fails) and a refused assignment
+example : (C06.kU.setValueRecalc C06.kEnv (0, []) (.int 9)).2 = .failed (5, []) (.user kValue) [(5, [])] ∧
+    CI C06.kEnv idLt (C06.kU.setValueRecalc C06.kEnv (0, []) (.int 9)).1 ∧
+    (C06.kS.setValueRecalc C06.kEnv (0, []) .none).2 = .refused .noneNotAllowed ∧
+    CI C06.kEnv idLt (C06.kS.setValueRecalc C06.kEnv (0, []) .none).1 :=
+  ⟨by decide,
+   (recalc_keeps_certificates idLt idLt_strict C06.kEnv C06.kEnv_wf C06.kU C06.kU_ci (0, []) (.int 9)).1 rfl rfl,
+   by decide,
+   (recalc_keeps_certificates idLt idLt_strict C06.kEnv C06.kEnv_wf C06.kS C06.kS_ci (0, []) .none).1 rfl rfl⟩
+
+example : CI (runR (C06.kEnv, {}) kOpsR).1 idLt (runR (C06.kEnv, {}) kOpsR).2 :=
+  (reachable_ci_with_recalc idLt idLt_strict C06.kEnv C06.kEnv_wf kOpsR kOpsR_admissible).1
+
+example : expand (C06.kEnv, {}) kOpsR =
+    [.eval (2, []), .eval (3, []), .eval (4, []),
+     .setValue (0, []) (.int 2), .eval (2, []), .eval (3, []),
+     .eval (5, []),
+     .setValue (0, []) (.int 9), .eval (2, []), .eval (5, []),
+     .setValue (0, []) .none] := by rfl
+
+example : runR (C06.kEnv, {}) kOpsR = run (C06.kEnv, {}) (expand (C06.kEnv, {}) kOpsR) :=
+  (recalc_history_is_a_lazy_history idLt idLt_strict C06.kEnv C06.kEnv_wf kOpsR kOpsR_admissible).1
+
+/-- both sides computed: the states are equal as wholes; after `c0 = 2` (option on) `c1()`, `c2()`, `c3()` hold
+20, 21, 120 at once; at the end `c0()` holds 9 as an input, `c2()` holds 0, `c4()` keeps 7, `c1()`, `c3()`, `c5()`
+hold nothing, and `c3()` asked for afterwards is 190 – in the live model and in the model that saw only
+the two accepted assignments, lazily -/
+example : (runR (C06.kEnv, {}) kOpsR).2 =
+      (run (C06.kEnv, {})
+        [.eval (2, []), .eval (3, []), .eval (4, []), .setValue (0, []) (.int 2), .eval (2, []), .eval (3, []),
+         .eval (5, []), .setValue (0, []) (.int 9), .eval (2, []), .eval (5, []), .setValue (0, []) .none]).2 ∧
+    (runR (C06.kEnv, {}) (kOpsR.take 4)).2.data.map (·.1) = [(3, []), (2, []), (1, []), (0, []), (4, [])] ∧
+    lookup (runR (C06.kEnv, {}) (kOpsR.take 4)).2.data (3, []) = some (.int 120) ∧
+    (runR (C06.kEnv, {}) kOpsR).2.data = [((2, []), .int 0), ((0, []), .int 9), ((4, []), .int 7)] ∧
+    (runR (C06.kEnv, {}) kOpsR).2.inputs = [(0, [])] ∧
+    (evalTop C06.kEnv (3, []) (runR (C06.kEnv, {}) kOpsR).2).1 = .ok (.int 190) ∧
+    (evalTop C06.kEnv (3, []) (run (C06.kEnv, {}) (noEvals (expand (C06.kEnv, {}) kOpsR))).2).1 = .ok (.int 190) := by
+  decide
+
+example (v w : Val) (hv : (evalTop (runR (C06.kEnv, {}) kOpsR).1 (3, []) (runR (C06.kEnv, {}) kOpsR).2).1 = .ok v)
+    (hw : (evalTop (run (C06.kEnv, {}) (noEvals (expand (C06.kEnv, {}) kOpsR))).1 (3, [])
+            (run (C06.kEnv, {}) (noEvals (expand (C06.kEnv, {}) kOpsR))).2).1 = .ok w) : v = w :=
+  live_answer_equals_edits_only_answer_with_recalc idLt idLt_strict C06.kEnv C06.kEnv_wf kOpsR kOpsR_admissible
+    (3, []) v w hv hw
+
+-- `every_lazy_theorem_holds_with_recalc` used: C06's invariant "an input is not a reader of a reference"
+-- style statements transfer; here with `P` = "the state has certificates"
+example : CI (runR (C06.kEnv, {}) kOpsR).1 idLt (runR (C06.kEnv, {}) kOpsR).2 :=
+  every_lazy_theorem_holds_with_recalc idLt idLt_strict C06.kEnv C06.kEnv_wf (fun st => CI st.1 idLt st.2)
+    (fun ops hadm => (reachable_ci idLt idLt_strict C06.kEnv C06.kEnv_wf ops hadm).1) kOpsR kOpsR_admissible
 
 /-! ### the hypothesis `NoCatchEnv` is needed
 
